@@ -138,7 +138,9 @@ def run_hashreset(facts, run, prop="C17"):
         if not re.match(r"crrl::(sha2|sha3|blake2s)::", nn) or fn["kind"] != "AssocFn":
             continue
         doc = fn.get("doc", "")
-        by_name = "reset" in fn["item"] and fn["item"] != "reset"
+        # private helpers (e.g. reset() split into reset_input()/reset_chain()) are not entry points: the public
+        # functions that use them carry the obligation
+        by_name = "reset" in fn["item"] and fn["item"] != "reset" and bool(fn.get("reach"))
         by_doc = bool(DOC_RESETS.search(doc)) and not DOC_NOT.search(doc) and fn["item"] != "reset"
         if not (by_name or by_doc):
             continue
